@@ -259,6 +259,16 @@ def drive(boundary, body, rnd, mode, eof=None):
 BOUNDARIES = [b"bNd-7", b"----WebKitFormBoundary7MA4YWxkTrZu0gW", b"x"]
 
 
+def _until_epilogue(events):
+    out = []
+    for e in events:
+        if e.get("op") == "ev":
+            out.append(e.get("ev"))
+            if e.get("ev") == "Epilogue":
+                break
+    return out
+
+
 def long_sessions(ctx, wd, n, rnd, pid, hold_only=False):
     """n recorded sessions per boundary on real decoders, far beyond the exhaustive bounds; property clauses in Python,
     every step validated by TLC against TraceMultipart.tla with the base module's invariants on the trace states.
@@ -285,6 +295,10 @@ def long_sessions(ctx, wd, n, rnd, pid, hold_only=False):
             got = [(k, bytes(c)) for k, c, fin in s.items if fin]
             if any(e.get("ev", "").startswith(("Exc:", "Other:")) for e in s.events):
                 ctx.violation(case, "decoder events", [e["ev"] for e in s.events if e["op"] == "ev"][-3:], "decoder raised an unexpected exception on a well-formed body")
+            elif pid == "C01" and whole and "Malformed" in _until_epilogue(s.events):
+                # (asking again after the Epilogue event was returned raises too: that is a call beyond the end, not a verdict on the body)
+                ctx.violation(case, "the encoded parts, then the end", [e["ev"] for e in s.events if e["op"] == "ev"][-3:],
+                              "decoder reports a complete well-formed body (%d parts) as malformed when the end of the input is signalled" % len(form))
             elif pid == "C01" and whole and got != form:
                 ctx.violation(case, [(k, c[:40].decode("latin-1")) for k, c in form], [(k, c[:40].decode("latin-1")) for k, c in got],
                               "decoder session does not return exactly the encoded parts (long body)")
